@@ -26,7 +26,8 @@ LEVEL = "proof"
 MODULE = "Sigc.Props.C16"
 REQUIRED = ["Sigc.C16.exactly_once", "Sigc.C16.remove_during_round", "Sigc.C16.copy_transfers_nothing",
             "Sigc.C16.self_assign_silent", "Sigc.C16.list_empty_after_round",
-            "Sigc.C16.add_in_round_safe", "Sigc.C16.add_in_round_once", "Sigc.C16.add_in_round_ignored"]
+            "Sigc.C16.add_in_round_safe", "Sigc.C16.add_in_round_once", "Sigc.C16.add_in_round_ignored",
+            "Sigc.C16.exactly_once_wide", "Sigc.C16.added_nodup_wide", "Sigc.C16.present2_eq_present_of_domain"]
 PARTIAL = []
 TRUSTED = [
     "Lean 4 kernel (axioms as audited: propext, Quot.sound, Classical.choice); leanchecker in the thorough tier",
@@ -41,9 +42,12 @@ ASSUMPTIONS = [
     "domain (DESIGN §2/§5): user callbacks only remove registrations of the trackable being notified — no "
     "add_destroy_notify_callback and no nested notify_callbacks() from inside a delivery round (History.Domain; "
     "the witnesses nested_notify_witness / add_in_round_witness show neither can be dropped from exactly-once). "
-    "Safety (no error state) and at-most-once delivery are proved on the wider domain History.Domain2 (callbacks "
-    "remove and add in any mix; only nested notify_callbacks() excluded): add_in_round_safe / add_in_round_once / "
-    "add_in_round_ignored; the generator's edge histories (callbacks that add) are compared model == library under sanitizers",
+    "Safety (no error state), at-most-once delivery and the exactly-once statement in its round-aware reading (an add "
+    "issued from inside a delivery round on the trackable being notified registers nothing — trackable.cc `if (!clearing_)` — "
+    "present2 in Sigc/Trk.lean) are proved on the wider domain History.Domain2 (callbacks remove and add in any mix; only "
+    "nested notify_callbacks() excluded): add_in_round_safe / add_in_round_once / add_in_round_ignored / exactly_once_wide; "
+    "present2_eq_present_of_domain: on the narrow domain both readings coincide. The generator's edge histories (callbacks "
+    "that add) are compared model == library under sanitizers and judged by the monitor with the same reading",
     "callbacks act on the trackable being notified only; trackable_callback_list::clear() (no caller) is not modelled",
     "operations naming a destroyed trackable are skipped on both sides (no user-level undefined behaviour in histories)",
     "the property does not fix the order of deliveries inside a round; the monitor does not check it "
